@@ -62,7 +62,7 @@ class Harness(cm.BaseB):
         out = []
         for R in range(1, 17):
             out.append({"k": "rot", "R": R})
-            out.append({"k": "rand", "R": R})
+            out.append({"k": "rand", "R": R, "seeds": 5 if tier == "quick" else 12})
         for RA in range(1, 5):
             for RB in range(1, 7):
                 out.append({"k": "shift", "RA": RA, "RB": RB})
@@ -76,7 +76,7 @@ class Harness(cm.BaseB):
                 yield {"k": "rot", "R": chunk["R"], "C": C}
         elif k == "rand":
             for C in range(1, 25):
-                for seed in range(5):
+                for seed in range(chunk.get("seeds", 5)):
                     for mode in ("full", "row", "column"):
                         yield {"k": "rand", "R": chunk["R"], "C": C, "seed": seed, "mode": mode}
                 yield {"k": "rand", "R": chunk["R"], "C": C, "seed": 0, "mode": "diagonal"}
@@ -168,6 +168,9 @@ class Harness(cm.BaseB):
             return "rand:raised", None, [("C15/raised", f"WellRandomizer({R}x{C}, {seed}, {mode}): {type(e).__name__}: {e}")]
         if mode == "diagonal":
             return "rand:badmode:accepted", None, [("C15/unsupported-mode-accepted", f"mode {mode!r}")]
+        # bystanders of another shape / seed, created after rz: they must not disturb it
+        for shp, sd in (((R + 2, C + 3), seed + 1), ((max(1, R - 1), max(1, C - 1)), seed + 7), ((R, C), seed + 3)):
+            rt.WellRandomizer(shp, sd, mode=mode)
         allw = flat(ids(R, C))
         for lab, val in inputs(R, C, self.tier_inputs):
             src = flat(val)
